@@ -15,13 +15,13 @@ import vlib
 PROFILES = {
     # name: profile (see vlib.profile_flags)
     "core3":    dict(N=3, L=2, cap=2, head=1, manual=0, pay=0, ctx=0, feat="PSHG"),
-    "core3dev": dict(N=3, L=2, cap=5, head=1, manual=0, pay=0, ctx=0, feat="PSHG", dev=1),       # (more tasks than states)
+    "core3dev": dict(N=3, L=2, cap=5, head=1, manual=0, pay=0, ctx=0, feat="PSHG", dev=1, constcb=1),       # (more tasks than states)
     "peer4m":   dict(N=4, L=3, cap=0, head=0, manual=1, pay=4, ctx=1, feat="PSHG", cfgorder=2),
     "tiny2v":   dict(N=2, L=1, cap=3, head=0, manual=0, pay=5, ctx=2, feat="PSHGV", cfgorder=3),
-    "inj3m":    dict(N=3, L=4, cap=0, head=1, manual=1, pay=2, ctx=3, feat="PSHG", inj=(1, 2, 1, 3), cfgorder=1),
+    "inj3m":    dict(N=3, L=4, cap=0, head=1, manual=1, pay=2, ctx=3, feat="PSHG", inj=(1, 2, 1, 3), cfgorder=1, constcb=1),
     "sparse3i": dict(N=3, L=2, cap=0, head=1, manual=0, pay=0, ctx=0, feat="PHG", inj=(0, 0, 1, 0), defmode=2),      # state 1: one injection, sparse own callbacks (no reenter of its own)
     "virt3":    dict(N=3, L=2, cap=2, head=1, manual=0, pay=0, ctx=0, feat="PG", inj=(1, 1, 2, 0), virt=1),       # injected callbacks declared virtual, overridden by the states
-    "sparse5":  dict(N=5, L=2, cap=0, head=1, manual=0, pay=1, ctx=1, feat="PSHG", defmode=1, dev=1, cfgorder=3),
+    "sparse5":  dict(N=5, L=2, cap=0, head=1, manual=0, pay=1, ctx=1, feat="PSHG", defmode=1, dev=1, cfgorder=3, constcb=1),
     "one1v":    dict(N=1, L=2, cap=0, head=1, manual=1, pay=3, ctx=0, feat="PSHGV", defmode=2),
     "big9":     dict(N=9, L=7, cap=3, head=1, manual=0, pay=7, ctx=1, feat="PSHG", cfgorder=2),
     "man3":     dict(N=3, L=2, cap=2, head=1, manual=1, pay=0, ctx=0, feat="PSHG"),
